@@ -497,8 +497,10 @@ impl Watcher {
             return Err(GetSubscriptionInfoFailure::SubscriptionExpired(expiry));
         }
 
-        let (subscription_info, locators) = self.gatekeeper.get_user_info(user_id).unwrap();
-        Ok((subscription_info, locators))
+        // The user may have been purged by a new block since it was authenticated.
+        self.gatekeeper
+            .get_user_info(user_id)
+            .ok_or(GetSubscriptionInfoFailure::AuthenticationFailure)
     }
 }
 
